@@ -163,7 +163,7 @@ package state
 
 //@ func Session.Encryption
 //@   modifies s.lock, s.encryption
-//@   ensures encryption [C02]: result != nil
+//@   ensures encryption [C02]: result != nil && result == s.encryption && (old(s.encryption) != nil ==> result == old(s.encryption))
 
 //@ func NewEncryptionSession
 //@   modifies nothing
